@@ -205,7 +205,7 @@ func runC07(c *Ctx) {
 				a := h.Node.(*ast.AssignStmt)
 				rhs := core.ExprString(a.Rhs[0])
 				switch {
-				case strings.Contains(rhs, "pendingInputs"):
+				case mentionsSel(a.Rhs[0], "pendingInputs"):
 					n++
 					ok := false
 					for _, w := range fw {
@@ -214,10 +214,10 @@ func runC07(c *Ctx) {
 						}
 					}
 					c.Check("C07-R4", f.Key()+" record extended only after a successful forward pass", c.Pos(a), ok, "seq.cache.Inputs may absorb the pending inputs only behind the nil edge of Forward/Decode")
-				case strings.HasPrefix(rhs, "seq.cache.Inputs[:"):
+				case isPrefixSliceOf(info, a.Rhs[0], fInputs):
 					// shrink only: the bound is tokenLen built from len(seq.cache.Inputs)+1 minus non-negative terms
 					c.OK("C07-R4", f.Key()+" stop-trim is a prefix slice of the record", c.Pos(a), rhs)
-				case rhs == "[]input.Input{}":
+				case isEmptyCompositeLit(a.Rhs[0]):
 					c.OK("C07-R4", f.Key()+" record cleared when caching is disabled", c.Pos(a), rhs)
 				default:
 					c.Check("C07-R4", f.Key()+" store:cache.Inputs "+rhs, c.Pos(a), false, "unclassified store to the slot record in processBatch")
@@ -330,17 +330,18 @@ func runC07(c *Ctx) {
 		c.Rule("C07-R6", "record and cache are cut at the same index: in LoadCacheSlot every modification of numPast other than the fallback to 0 happens before the resume test (CanResume) and the erase, and the same numPast bounds the erase, the record slice and the returned prompt; forks copy the record into a fresh slice of the copied length (never alias another slot's record); ShiftCacheSlot removes [numKeep, numKeep+discard) and shifts the record by the same discard")
 		if f := c.Fn("C07-R6", rel, "InputCache.LoadCacheSlot"); f != nil {
 			g := c.G(f)
+			// numPast: the variable given as the start of the erase (Remove / KvCacheSeqRm … to the end)
 			var np types.Object
-			ast.Inspect(f.Body, func(n ast.Node) bool {
-				if vs, ok := n.(*ast.ValueSpec); ok {
-					for _, nm := range vs.Names {
-						if nm.Name == "numPast" {
-							np = info.Defs[nm]
+			for _, call := range core.Calls(f.Body, false) {
+				nm := core.CalleeName(info, call)
+				if (strings.HasSuffix(nm, ".Remove") || strings.HasSuffix(nm, ".KvCacheSeqRm")) && len(call.Args) == 3 {
+					if id, isID := ast.Unparen(call.Args[1]).(*ast.Ident); isID {
+						if v, isV := info.Uses[id].(*types.Var); isV && !v.IsField() {
+							np = v
 						}
 					}
 				}
-				return true
-			})
+			}
 			if np == nil {
 				c.Undecided("C07-R6", "anchor:numPast in "+rel+" LoadCacheSlot", "-", "anchor lost")
 			} else {
@@ -390,10 +391,10 @@ func runC07(c *Ctx) {
 					if !isS {
 						return true
 					}
-					if core.FieldVar(info, a.Lhs[0]) == fInputs && se.Low == nil && se.High != nil && core.UsesObj(info, se.High, np) && core.ExprString(se.High) == "numPast" {
+					if core.FieldVar(info, a.Lhs[0]) == fInputs && se.Low == nil && se.High != nil && isIdentOf(info, se.High, np) {
 						okR = true
 					}
-					if id, isID := a.Lhs[0].(*ast.Ident); isID && id.Name == "prompt" && se.High == nil && se.Low != nil && core.ExprString(se.Low) == "numPast" {
+					if id, isID := a.Lhs[0].(*ast.Ident); isID && info.ObjectOf(id) == paramAt(f, 0) && se.High == nil && se.Low != nil && isIdentOf(info, se.Low, np) {
 						okP = true
 					}
 					return true
@@ -449,26 +450,55 @@ func runC07(c *Ctx) {
 		}
 		if f := c.Fn("C07-R6", rel, "InputCache.ShiftCacheSlot"); f != nil {
 			ok := false
+			numKeep := paramAt(f, 1)
+			var discard, inputLen types.Object
+			ast.Inspect(f.Body, func(n ast.Node) bool {
+				if a, isA := n.(*ast.AssignStmt); isA && len(a.Lhs) == 1 && len(a.Rhs) == 1 {
+					id, isID := a.Lhs[0].(*ast.Ident)
+					if !isID {
+						return true
+					}
+					for _, call := range core.Calls(a.Rhs[0], false) {
+						if strings.HasSuffix(core.CalleeName(info, call), ".ShiftDiscard") {
+							discard = info.ObjectOf(id)
+						}
+						if core.CalleeName(info, call) == "builtin.len" && core.FieldVar(info, call.Args[0]) == fInputs {
+							inputLen = info.ObjectOf(id)
+						}
+					}
+				}
+				return true
+			})
 			for _, call := range core.Calls(f.Body, false) {
 				nm := core.CalleeName(info, call)
 				if (strings.HasSuffix(nm, ".Remove") || strings.HasSuffix(nm, ".KvCacheSeqRm")) && len(call.Args) == 3 &&
-					core.ExprString(call.Args[1]) == "numKeep" && core.ExprString(call.Args[2]) == "numKeep + discard" {
+					isIdentOf(info, call.Args[1], numKeep) && isSumOf(info, call.Args[2], numKeep, discard) {
 					ok = true
 				}
 			}
 			okLoop, okCut := false, false
 			ast.Inspect(f.Body, func(n ast.Node) bool {
 				if fs, isF := n.(*ast.ForStmt); isF && fs.Init != nil {
-					if core.ExprString(fs.Init.(*ast.AssignStmt).Rhs[0]) == "numKeep + discard" {
+					init, isAs := fs.Init.(*ast.AssignStmt)
+					if isAs && len(init.Lhs) == 1 && isSumOf(info, init.Rhs[0], numKeep, discard) {
+						iv := info.ObjectOf(init.Lhs[0].(*ast.Ident))
 						for _, st := range fs.Body.List {
-							if a, isA := st.(*ast.AssignStmt); isA && strings.Contains(core.ExprString(a.Lhs[0]), "[i - discard]") && strings.HasSuffix(core.ExprString(a.Rhs[0]), "[i]") {
+							a, isA := st.(*ast.AssignStmt)
+							if !isA || len(a.Lhs) != 1 || len(a.Rhs) != 1 {
+								continue
+							}
+							lx, ok1 := ast.Unparen(a.Lhs[0]).(*ast.IndexExpr)
+							rx, ok2 := ast.Unparen(a.Rhs[0]).(*ast.IndexExpr)
+							if ok1 && ok2 && core.FieldVar(info, lx.X) == fInputs && core.FieldVar(info, rx.X) == fInputs && isDiffOf(info, lx.Index, iv, discard) && isIdentOf(info, rx.Index, iv) {
 								okLoop = true
 							}
 						}
 					}
 				}
-				if a, isA := n.(*ast.AssignStmt); isA && len(a.Lhs) == 1 && core.FieldVar(info, a.Lhs[0]) == fInputs && strings.HasSuffix(core.ExprString(a.Rhs[0]), "[:inputLen - discard]") {
-					okCut = true
+				if a, isA := n.(*ast.AssignStmt); isA && len(a.Lhs) == 1 && core.FieldVar(info, a.Lhs[0]) == fInputs {
+					if se, isS := ast.Unparen(a.Rhs[0]).(*ast.SliceExpr); isS && se.Low == nil && se.High != nil && core.FieldVar(info, se.X) == fInputs && isDiffOf(info, se.High, inputLen, discard) {
+						okCut = true
+					}
 				}
 				return true
 			})
@@ -501,4 +531,35 @@ func hasLockNamed(s core.LockSet, field string) bool {
 		}
 	}
 	return false
+}
+
+func isIdentOf(info *types.Info, e ast.Expr, o types.Object) bool {
+	id, ok := ast.Unparen(e).(*ast.Ident)
+	return ok && o != nil && info.Uses[id] == o
+}
+
+// isSumOf: e is a + b (either order).
+func isSumOf(info *types.Info, e ast.Expr, a, b types.Object) bool {
+	be, ok := ast.Unparen(e).(*ast.BinaryExpr)
+	if !ok || be.Op != token.ADD {
+		return false
+	}
+	return (isIdentOf(info, be.X, a) && isIdentOf(info, be.Y, b)) || (isIdentOf(info, be.X, b) && isIdentOf(info, be.Y, a))
+}
+
+// isDiffOf: e is a - b.
+func isDiffOf(info *types.Info, e ast.Expr, a, b types.Object) bool {
+	be, ok := ast.Unparen(e).(*ast.BinaryExpr)
+	return ok && be.Op == token.SUB && isIdentOf(info, be.X, a) && isIdentOf(info, be.Y, b)
+}
+
+// isPrefixSliceOf: e is <x>.<field>[:hi] (a prefix of the field's own value).
+func isPrefixSliceOf(info *types.Info, e ast.Expr, field *types.Var) bool {
+	se, ok := ast.Unparen(e).(*ast.SliceExpr)
+	return ok && se.Low == nil && se.High != nil && core.FieldVar(info, se.X) == field
+}
+
+func isEmptyCompositeLit(e ast.Expr) bool {
+	cl, ok := ast.Unparen(e).(*ast.CompositeLit)
+	return ok && len(cl.Elts) == 0
 }
